@@ -1035,6 +1035,49 @@ func c15Edits() []c15Edit {
 		return fmt.Sprintf("call %s of %s (position %d): callee %s -> %s (already called elsewhere in the pipeline: %v)",
 			id, st.pp.Name, st.j, old, c.Callee, st.dup), false, true
 	})
+	// ---- type edits over the whole type language: base name, outer array dimension, typed-map
+	// wrapper, array dimension inside a typed map, struct vs map, file kind.  Applied to a stage
+	// parameter whose bindings stay valid for both types (an output nobody refers to, or an input
+	// bound to null everywhere), so that the TYPE is the only thing that changes.
+	for _, kind := range []string{"type-base-name", "type-array-dim", "type-map-wrap", "type-map-inner-array", "type-struct-vs-map", "type-file-kind"} {
+		kind := kind
+		sem(kind, func(rng *rand.Rand, q *gProg) (string, bool, bool) {
+			type site struct {
+				st  *gStage
+				out bool
+				i   int
+				nt  string
+			}
+			var sites []site
+			for _, st := range c15Stages(q, true) {
+				for i, pr := range st.Outs {
+					if !c15OutReferenced(q, st.Name, pr.Name) {
+						for _, nt := range c15TypeVariants(q, pr.Type, kind) {
+							sites = append(sites, site{st, true, i, nt})
+						}
+					}
+				}
+				for i, pr := range st.Ins {
+					if c15InAlwaysNull(q, st.Name, pr.Name) {
+						for _, nt := range c15TypeVariants(q, pr.Type, kind) {
+							sites = append(sites, site{st, false, i, nt})
+						}
+					}
+				}
+			}
+			if len(sites) == 0 {
+				return "", false, false
+			}
+			x := sites[rng.Intn(len(sites))]
+			ps, mode := x.st.Ins, "in"
+			if x.out {
+				ps, mode = x.st.Outs, "out"
+			}
+			old := ps[x.i].Type
+			ps[x.i].Type = x.nt
+			return fmt.Sprintf("%s parameter %s of stage %s: type %s -> %s (bindings unchanged)", mode, ps[x.i].Name, x.st.Name, old, x.nt), false, true
+		})
+	}
 	sem("struct-definition", func(rng *rand.Rand, q *gProg) (string, bool, bool) {
 		// a field is added to a struct type that a reachable parameter uses: the declared types change
 		r := c15Reachable(q)
@@ -1064,6 +1107,196 @@ func c15Edits() []c15Edit {
 		E[i].kinds = expect[E[i].name]
 	}
 	return E
+}
+
+// parameter types of the generator: base | base[]… | map<base[]…>[]…
+type c15Ty struct {
+	base         string
+	isMap        bool
+	inner, outer int
+}
+
+func c15ParseTy(t string) c15Ty {
+	var r c15Ty
+	for strings.HasSuffix(t, "[]") {
+		t = strings.TrimSuffix(t, "[]")
+		r.outer++
+	}
+	if strings.HasPrefix(t, "map<") && strings.HasSuffix(t, ">") {
+		r.isMap = true
+		t = strings.TrimSuffix(strings.TrimPrefix(t, "map<"), ">")
+		for strings.HasSuffix(t, "[]") {
+			t = strings.TrimSuffix(t, "[]")
+			r.inner++
+		}
+	}
+	r.base = t
+	return r
+}
+
+func (t c15Ty) String() string {
+	s := t.base
+	if t.isMap {
+		s = "map<" + t.base + strings.Repeat("[]", t.inner) + ">"
+	}
+	return s + strings.Repeat("[]", t.outer)
+}
+
+func c15TypeVariants(q *gProg, ts, kind string) []string {
+	t := c15ParseTy(ts)
+	isStruct := false
+	for _, st := range q.Structs {
+		isStruct = isStruct || st.Name == t.base
+	}
+	isFt := false
+	for _, f := range q.Filetypes {
+		isFt = isFt || f == t.base
+	}
+	var out []c15Ty
+	switch kind {
+	case "type-base-name":
+		swap := map[string]string{"int": "float", "float": "int", "string": "int", "bool": "string"}
+		if nb, ok := swap[t.base]; ok {
+			n := t
+			n.base = nb
+			out = append(out, n)
+		}
+		if isFt && (t.outer > 0 || t.isMap) { // (a scalar file type's name is ignored by design)
+			for _, f := range q.Filetypes {
+				if f != t.base {
+					n := t
+					n.base = f
+					out = append(out, n)
+				}
+			}
+		}
+	case "type-array-dim":
+		n := t
+		n.outer++
+		out = append(out, n)
+		if t.outer > 0 {
+			m := t
+			m.outer--
+			out = append(out, m)
+		}
+	case "type-map-wrap":
+		if t.base == "map" {
+			break
+		}
+		if t.isMap {
+			// unwrap: map<X[]…> -> X[]… (keeps the outer dimension)
+			out = append(out, c15Ty{base: t.base, outer: t.outer + t.inner})
+			if t.inner > 0 {
+				out = append(out, c15Ty{base: t.base, outer: t.outer})
+			}
+		} else {
+			// wrap keeping base name, outer array dimension and file kind
+			out = append(out, c15Ty{base: t.base, isMap: true, outer: t.outer})
+			if t.outer > 0 {
+				out = append(out, c15Ty{base: t.base, isMap: true, inner: t.outer})
+			}
+		}
+	case "type-map-inner-array":
+		if t.isMap {
+			n := t
+			n.inner++
+			out = append(out, n)
+			if t.inner > 0 {
+				m := t
+				m.inner--
+				out = append(out, m)
+			}
+		}
+	case "type-struct-vs-map":
+		if isStruct && !t.isMap {
+			out = append(out, c15Ty{base: "map", outer: t.outer}, c15Ty{base: "int", isMap: true, outer: t.outer})
+		}
+		if t.base == "map" && len(q.Structs) > 0 {
+			out = append(out, c15Ty{base: q.Structs[0].Name, outer: t.outer})
+		}
+		if t.isMap && len(q.Structs) > 0 {
+			out = append(out, c15Ty{base: q.Structs[0].Name, outer: t.outer})
+		}
+	case "type-file-kind":
+		if isFt {
+			n := t
+			n.base = "string"
+			out = append(out, n)
+		}
+		if t.base == "string" && len(q.Filetypes) > 0 {
+			n := t
+			n.base = q.Filetypes[0]
+			out = append(out, n)
+		}
+	}
+	var res []string
+	for _, o := range out {
+		if s := o.String(); s != ts {
+			res = append(res, s)
+		}
+	}
+	return res
+}
+
+// is `<call of stage>.<out>` mentioned anywhere (bindings, returns, conditions, wildcards, retains)?
+func c15OutReferenced(q *gProg, stage, out string) bool {
+	for i := range q.Decls {
+		pp := q.Decls[i].Pipe
+		if pp == nil {
+			continue
+		}
+		for j := range pp.Calls {
+			c := &pp.Calls[j]
+			if c.Callee != stage && c.Callee != stage+"_ALT" && c.Callee+"_ALT" != stage {
+				continue
+			}
+			ref := c.id() + "." + out
+			hit := func(e string) bool {
+				e = strings.TrimPrefix(e, "split ")
+				return e == ref || strings.HasPrefix(e, ref+".") || e == c.id()
+			}
+			for k := range pp.Calls {
+				for _, b := range pp.Calls[k].Binds {
+					if hit(b.Exp) {
+						return true
+					}
+				}
+				if hit(pp.Calls[k].Disabled) || pp.Calls[k].Wild == c.id() {
+					return true
+				}
+			}
+			for _, b := range pp.Ret {
+				if hit(b.Exp) {
+					return true
+				}
+			}
+			for _, x := range pp.Retain {
+				if hit(x) {
+					return true
+				}
+			}
+		}
+	}
+	return false
+}
+
+// is the stage called at least once and is this input bound to null in every call?
+func c15InAlwaysNull(q *gProg, stage, in string) bool {
+	n := 0
+	for _, c := range c15AllCalls(q) {
+		if c.Callee != stage {
+			continue
+		}
+		for _, b := range c.Binds {
+			if b.Id == in {
+				if b.Exp != "null" {
+					return false
+				}
+				n++
+			}
+		}
+	}
+	return n > 0
 }
 
 func c15SameNumber(a, b string) bool {
@@ -1145,8 +1378,8 @@ func runC15(c *Ctx) {
 		"lock/unlock/signal histories on a real pipestance vs the Lean lock model. non-trivial = pair whose two texts differ; " +
 		"distinct = distinct (program text, edited text)"
 	edits := c15Edits()
-	nprog := 120
-	e2eBudget := 60
+	nprog := 80
+	e2eBudget := 45
 	lockRuns := 20
 	if c.Thorough {
 		nprog = 1200
